@@ -67,6 +67,10 @@ type interpreter struct {
 	runningInit map[*ssa.Package]bool
 	allocLimit  int64
 	fmtDepth    int
+	ufUsed      map[string]bool
+	ufConcrete  map[string][]ufFact
+	ufApps      []ufApp
+	collisionFree bool
 }
 
 type deferred struct {
